@@ -359,10 +359,18 @@ fn compile_op(name: &str, srcs: &[String], check: bool) -> String {
     std::fs::create_dir_all(&src_dir).unwrap();
     std::fs::create_dir_all(&out_dir).unwrap();
     let mut paths = Vec::new();
+    let same_base_names = N.load(Ordering::Relaxed) % 2 == 0;
     for (i, t) in srcs.iter().enumerate() {
         // file names sort in the REVERSE of the order in which the paths are given: the output must depend on
-        // the order of the list, not on the names
-        let p = src_dir.join(format!("s{:03}_{i}.json", 999 - i));
+        // the order of the list, not on the names; every other request puts its sources into different directories
+        // under ONE base name (`v1/user.json`, `v2/user.json`): a source is identified by its path, not its name
+        let p = if same_base_names {
+            let d = src_dir.join(format!("d{:03}", 999 - i));
+            std::fs::create_dir_all(&d).unwrap();
+            d.join("source.json")
+        } else {
+            src_dir.join(format!("s{:03}_{i}.json", 999 - i))
+        };
         std::fs::write(&p, t).unwrap();
         paths.push(p);
     }
